@@ -59,7 +59,9 @@ class Walker:
 
     def term(self, e, env):
         if isinstance(e, ast.Name):
-            if e.id in env: return env[e.id]
+            if e.id in env:
+                if env[e.id][0] == "unknown": raise Unrecognised("%s: path name %s was reassigned to an expression not recognised" % (self.rel, e.id))
+                return env[e.id]
             raise Unrecognised("%s: path expression uses unknown name %s" % (self.rel, e.id))
         if isinstance(e, ast.BinOp) and isinstance(e.op, ast.Add) and isinstance(e.right, ast.Constant) and isinstance(e.right.value, str):
             return T_cat(self.term(e.left, env), e.right.value)
@@ -86,6 +88,11 @@ class Walker:
                     env[tgt.id] = t
                 elif isinstance(tgt, ast.Attribute) and isinstance(tgt.value, ast.Name) and tgt.value.id == "options":
                     env["options." + tgt.attr] = t
+            else:
+                # a tracked path name is given a value of a shape not recognised: any later use of it as a path is unknown
+                key = tgt.id if isinstance(tgt, ast.Name) else ("options." + tgt.attr if isinstance(tgt, ast.Attribute) and isinstance(tgt.value, ast.Name) and tgt.value.id == "options" else None)
+                if key is not None and key in env and getattr(self, "strict", True):
+                    env[key] = ("unknown", key)
             self.expr(st.value, env, fname, depth)
             return
         if isinstance(st, ast.If):
@@ -187,7 +194,8 @@ def read_footprints(repo):
     w.walk("compiler", {k: T_arg(k) for k in ("basename", "outputname", "savename", "fixed_file")})
     fx["compile"] = list(w.effects)
     check_no_other_effects(comp, "compiler.py", {"compiler", "save", "load", "load_fixed", "main", "fix_signal", "parse_fixed"})
-    wm = Walker(_functions(comp), "compiler.py"); envm = {"basename": T_arg("BASENAME")}
+    # in the main() functions BASENAME stands for the base name however it is cut out of argv: reassignments keep it
+    wm = Walker(_functions(comp), "compiler.py"); wm.strict = False; envm = {"basename": T_arg("BASENAME")}
     main = _functions(comp)["main"]
     for st in main.body: wm.stmt(st, envm, "main", 0)
     cli_compile = {k[8:]: v for k, v in envm.items() if k.startswith("options.")}
@@ -197,7 +205,7 @@ def read_footprints(repo):
     w.walk("design", {k: T_arg(k) for k in ("basename", "infilename", "outfilename", "tempname", "spuriousbinary")})
     fx["design"] = list(w.effects)
     check_no_other_effects(sd, "spurious_design.py", {"design", "print_list", "main"})
-    wm = Walker(funcs, "spurious_design.py"); envm = {"basename": T_arg("BASENAME"), "infilename": T_arg("BASENAME")}
+    wm = Walker(funcs, "spurious_design.py"); wm.strict = False; envm = {"basename": T_arg("BASENAME"), "infilename": T_arg("BASENAME")}
     for st in _functions(sd)["main"].body: wm.stmt(st, envm, "main", 0)
     cli_design = {k[8:]: v for k, v in envm.items() if k.startswith("options.")}
     # finish
@@ -207,12 +215,55 @@ def read_footprints(repo):
     w.walk("finish", {k: T_arg(k) for k in ("savename", "designname", "seqsname", "strandsname")})
     fx["finish"] = list(w.effects)
     check_no_other_effects(fin, "finish.py", {"finish", "main"})
-    wm = Walker(funcs, "finish.py"); envm = {"basename": T_arg("BASENAME")}
+    wm = Walker(funcs, "finish.py"); wm.strict = False; envm = {"basename": T_arg("BASENAME")}
     for st in _functions(fin)["main"].body: wm.stmt(st, envm, "main", 0)
     cli_finish = {k[8:]: v for k, v in envm.items() if k.startswith("options.")}
     return fx, {"compile": cli_compile, "design": cli_design, "finish": cli_finish}
 
+# ---- the rest of the package: every file effect outside the four translated modules, as found on the tree the
+# translator was written for.  Anything else (a new effect, one more of a known one) is a shape not recognised.
+PACKAGE_EFFECTS = {
+    ("DNAfold_Nupack.py", "DNAfold", "subprocess.check_call"): 1, ("DNAfold_Nupack.py", "DNAfold", "os.remove"): 2,
+    ("DNAfold_Vienna.py", "DNAfold", "subprocess.check_call"): 1, ("DNAfold_Vienna.py", "DNAfold", "os.remove"): 2,
+    ("_spuriousSSM_wrapper.py", "main", "os.system"): 1,
+    ("component_parser.py", "load_component", "open"): 1, ("system_parser.py", "load_system", "open"): 1,
+    ("design/PIL_parser.py", "load_spec", "open"): 1, ("design/constraint_load.py", "output", "open"): 1,
+    ("design/new_loading.py", "load_file", "open"): 1, ("design/random_design.py", "output_sequences", "open"): 1,
+    ("multihelp.py", "DNAkinfold", "open"): 2, ("multihelp.py", "DNAkinfold", "subprocess.check_call"): 1, ("multihelp.py", "DNAkinfold", "os.remove"): 1,
+    ("multistrand.py", "DNAkinfold", "subprocess.check_call"): 1, ("multistrand.py", "DNAkinfold", "open"): 1, ("multistrand.py", "DNAkinfold", "os.remove"): 3,
+    ("new_loading.py", "load_file", "open"): 1, ("utils.py", "mktemp", "tempfile.mkstemp"): 1,
+    ("var_substitute.py", "process_filename", "open"): 1, ("var_substitute.py", "substitute", "open"): 1, ("var_substitute.py", "<module>", "open"): 1,
+}
+_EFFECT_QUALS = {"open", "os.remove", "os.unlink", "os.rename", "os.replace", "os.rmdir", "os.mkdir", "os.makedirs", "os.system", "os.popen", "os.chdir",
+                 "subprocess.Popen", "subprocess.call", "subprocess.check_call", "subprocess.check_output", "subprocess.run",
+                 "tempfile.mkstemp", "tempfile.mktemp", "tempfile.NamedTemporaryFile", "tempfile.TemporaryFile",
+                 "shutil.move", "shutil.copy", "shutil.copyfile", "shutil.rmtree", "io.open", "codecs.open"}
+TRANSLATED_MODULES = {"compiler.py", "design/spurious_design.py", "finish.py", "kinetics.py"}
+
+def check_package_effects(repo):
+    import glob, warnings
+    root = os.path.join(repo, "peppercompiler")
+    seen = {}
+    for path in sorted(glob.glob(os.path.join(root, "**", "*.py"), recursive=True)):
+        rel = os.path.relpath(path, root)
+        if rel in TRANSLATED_MODULES: continue
+        with warnings.catch_warnings():
+            warnings.simplefilter("ignore")
+            mod = ast.parse(open(path).read(), rel)
+        def scan(node, fname):
+            for c in ast.walk(node):
+                if isinstance(c, ast.Call) and call_qual(c) in _EFFECT_QUALS:
+                    k = (rel, fname, call_qual(c)); seen[k] = seen.get(k, 0) + 1
+        for n in ast.walk(mod):
+            if isinstance(n, (ast.FunctionDef, ast.AsyncFunctionDef)): scan(n, n.name)
+        for st in mod.body:
+            if not isinstance(st, (ast.FunctionDef, ast.AsyncFunctionDef, ast.ClassDef)): scan(st, "<module>")
+    for k, v in seen.items():
+        if v > PACKAGE_EFFECTS.get(k, 0):
+            raise Unrecognised("%s: function %s has a file effect (%s) outside the translated set" % k)
+
 def translate(repo):
+    check_package_effects(repo)
     fx, cli = read_footprints(repo)
     L = ["(* GENERATED on every run by harness/translate_footprint.py from /repo's working tree. Do not edit. *)",
          "From Coq Require Import List String.", "From PC Require Import Conc.FootprintDefs.", "Import ListNotations.", "Local Open Scope string_scope."]
